@@ -370,7 +370,7 @@ func genAr1415(c *Ctx) {
 	reds := []string{"sum", "avg", "min", "max"}
 	// exhaustive small scope: every value sequence of length 1..L over the 4-letter alphabet, cut into 1..3
 	// consecutive groups (= periods), x reducers x {int64, float64}
-	maxLen := c.Pick(3, 4)
+	maxLen := c.Pick(3, 5)
 	var seqs [][]int
 	var build func(cur []int)
 	build = func(cur []int) {
@@ -424,7 +424,7 @@ func genAr1415(c *Ctx) {
 	c.Case(false, fmt.Sprintf("ar avg f %d | -", hourNs1415))
 	// seeded random: longer series, other period lengths, instants before 1970, records carried in other locations
 	durs := []int64{hourNs1415, 60 * 1e9, 900 * 1e9, 86400 * 1e9, 7 * 1e9, 1000000007}
-	n := c.Pick(3000, 40000)
+	n := c.Pick(3000, 200000)
 	for i := 0; i < n; i++ {
 		d := durs[c.Rng.Intn(len(durs))]
 		ty := []string{"i", "f"}[c.Rng.Intn(2)]
@@ -459,7 +459,7 @@ func genAr1415(c *Ctx) {
 
 func genMm1415(c *Ctx) {
 	ops := []string{"min", "max", "minlazy", "maxlazy"}
-	maxLen := c.Pick(4, 5)
+	maxLen := c.Pick(4, 6)
 	var rec func(cur []int)
 	rec = func(cur []int) {
 		for _, ty := range []string{"i", "f"} {
@@ -483,7 +483,7 @@ func genMm1415(c *Ctx) {
 		}
 	}
 	rec(nil)
-	n := c.Pick(1500, 20000)
+	n := c.Pick(1500, 100000)
 	for i := 0; i < n; i++ {
 		ty := []string{"i", "f"}[c.Rng.Intn(2)]
 		ln := c.Rng.Small(30)
@@ -555,7 +555,7 @@ func genRf1415(c *Ctx) {
 	for _, e := range extra {
 		c.Case(true, e)
 	}
-	n := c.Pick(1500, 20000)
+	n := c.Pick(1500, 100000)
 	dts := []string{"i", "i", "i", "f", "f", "f", "s", "b", "t"}
 	for i := 0; i < n; i++ {
 		nf := c.Rng.Range(1, 6)
@@ -664,7 +664,7 @@ func genRd1415(c *Ctx) {
 	// seeded random: 1..5 datasources, several records per period, off the boundaries (interpolated alignment),
 	// gaps, other period lengths, other locations
 	durs := []int64{hourNs1415, 900 * 1e9, 60 * 1e9, 86400 * 1e9}
-	n := c.Pick(2500, 30000)
+	n := c.Pick(2500, 150000)
 	for i := 0; i < n; i++ {
 		d := durs[c.Rng.Intn(len(durs))]
 		ty := []string{"i", "f"}[c.Rng.Intn(2)]
